@@ -26,16 +26,17 @@ import (
 const modPath = "github.com/aldas/go-modbus-client"
 
 type Ctx struct {
-	assertInv *[]assertInvariant // cached field invariants (cfg.go)
-	repo      string
-	modRoot   string // module path prefix considered "in module"
-	fset      *token.FileSet
-	pkgs      []*packages.Package
-	prog      *ssa.Program
-	spkgs     map[string]*ssa.Package
-	byPath    map[string]*packages.Package
-	cg        *callgraph.Graph
-	files     map[*token.File]*ast.File
+	loadProblems []string           // conditions under which no analysis may conclude
+	assertInv    *[]assertInvariant // cached field invariants (cfg.go)
+	repo         string
+	modRoot      string // module path prefix considered "in module"
+	fset         *token.FileSet
+	pkgs         []*packages.Package
+	prog         *ssa.Program
+	spkgs        map[string]*ssa.Package
+	byPath       map[string]*packages.Package
+	cg           *callgraph.Graph
+	files        map[*token.File]*ast.File
 
 	globalStores map[*ssa.Global][2]int
 }
@@ -92,7 +93,9 @@ func load(dir, mod string, minPkgs int) *Ctx {
 		if strings.HasPrefix(p.PkgPath, mod) && !strings.Contains(p.PkgPath, "/examples") {
 			for imp := range p.Imports {
 				if imp == "unsafe" || imp == "reflect" {
-					fatal("package %s imports %s: alias/effect analyses cannot conclude", p.PkgPath, imp)
+					// undecided must fail, but as a reported violation of every property (the analyses'
+					// stated assumption no longer holds), not as a tool crash
+					c.loadProblems = append(c.loadProblems, fmt.Sprintf("package %s imports %s: the alias/effect and value-flow analyses assume no unsafe/reflect in the library and cannot conclude", p.PkgPath, imp))
 				}
 			}
 		}
